@@ -243,6 +243,23 @@ def case_reshape(rng: Any, ctx: Ctx, index: int) -> None:
     xb = apply_monitored(op, rng)
     guarded('C13.roundtrip', lambda: roundtrip_and_matrix(op, xb, 'ReshapeOperator', changes))
 
+    def other_input() -> None:
+        # r1.T @ r2 with r1, r2 flattening two different input shapes of the same size: not an identity
+        if nl != 1 or len(shapes[0]) < 2:
+            return
+        r2 = ReshapeOperator((-1,), in_structure=S(shapes[0][::-1], dt))
+        r1 = ReshapeOperator((-1,), in_structure=s) if rng.integers(2) else RavelOperator(in_structure=s)
+        for comp in (r1.T @ r2, r2.T @ r1):
+            red = comp.reduce()
+            LOG.evaluated('C13.pair')
+            LOG.count('C13.pair', 'reshape:' + type(red).__name__)
+            m1, m2 = dense.matrix(comp), dense.matrix(red)
+            if not (np.array_equal(m1, m2) and dense.struct_eq_loose(red.out_structure(), comp.out_structure())
+                    and dense.struct_eq_loose(red.in_structure(), comp.in_structure())):
+                LOG.violation('C13', 'C13.pair', f'Reshape.T@Reshape.reduce/{type(red).__name__}',
+                              'reducing the transpose of one reshape next to another reshape changed the map or its structures', expr=dense.describe(comp))
+    guarded('C13.pair', other_input)
+
 
 def case(rng: Any, ctx: Ctx, index: int) -> None:
     (case_moveaxis, case_ravel, case_reshape)[index % 3](rng, ctx, index)
